@@ -102,4 +102,27 @@ PROPS = {
         assumptions=["io::Write implementations report the number of bytes they accepted truthfully"],
         unreached=["FormattedEntryIoStream / Tee (to be added as Verus unit `sinks`)", "immediate_flush SinkState::append"],
     ),
+    "C12": dict(
+        kani=["writer_sample", "emf_num", "writer_congress"],
+        technique="Kani proof harnesses (loop-free, full-domain symbolic inputs) on the real FixedFractionSample::format, rate_to_n_alpha, rate_to_n, ExpMovingAverage::add_sample, GroupState::update_and_retain",
+        level_text="Kani/CBMC proof for every representable f32 rate in (0,1] and every random draw that the fixed-fraction sampler forwards exactly when draw <= rate, once, with that rate; that the EMF weight is "
+                   "floor(1/rate) or floor(1/rate)+1, chosen as n iff draw < alpha with alpha = (n+1) - 1/rate exactly (so its expectation is 1/rate), saturating at u64::MAX below 2^-63 (partitioned by binade: quick tier 5 binades + small rates, thorough all 52); "
+                   "and single-step contracts for the congressional sampler's per-group state. The congress budget / monotonicity invariants of update_rates (ahash map) are NOT decided.",
+        level_note="Trusted: CBMC float model, rand's StandardUniform conversion is executed (not stubbed), scripted RngCore supplies arbitrary words. update_rates over the hash map is outside CBMC's budget.",
+        explanation="sampling decision and weight",
+        assumptions=["the RNG yields arbitrary words (any value of the draw)", "congress: sum(avg x rate) <= target and monotonicity are not decided"],
+        unreached=["CongressSample::update_rates / sample_rate / format (ahash map, Instant)"],
+    ),
+    "C14": dict(
+        verus=[("emf_fresh", {}), ("emf_value", {}, ["write_metric_value"])],
+        technique="Verus: freshness obligation generated from the field list of the real struct State, discharged at the entry.write call of the extracted real format_with_multiplicity; write_metric_value contract independent of old counts_buf",
+        level_text="Deductive proof (Verus/z3) that when the formatter hands control to the entry, every accumulating buffer and map of the formatter state is empty (prefix only) and the per-call writer is rebuilt from constants and the call's arguments, "
+                   "for any prior state of the formatter (i.e. after any history of earlier entries, accepted or failed). The obligation is generated from the real struct's field list, so a new buffer without a clear fails it. "
+                   "The two deferred buffers are covered by write_metric_value's contract (counts_buf) and a syntactic check on finish (dimensions_buf).",
+        level_note="Trusted: PrefixedStringBuf::clear / hashbrown clear specs, EntryWriter::finish and the value writers only append to the buffers they are given (finish is not verified), "
+                   "derive(Default) of ValidationErrorBuilder is 'no error'.",
+        explanation="formatter state is fresh at the start of each entry",
+        assumptions=["EntryWriter::finish only reads per-call state and clears dimensions_buf before use (syntactic check)", "configuration fields of State are never written during format (not proved)"],
+        unreached=["EntryWriter::finish", "MetricsForDimensionSet::new"],
+    ),
 }
